@@ -1813,7 +1813,10 @@ func ruleWriterMarker(w *core.World, r *core.Report) {
 		if f.Pkg == nil || !strings.HasSuffix(f.Pkg.Pkg.Path(), "pkg/store") {
 			continue
 		}
-		for _, in := range core.OwnInstrs(f) {
+		if core.ExpandedInto(f) != nil {
+			continue // a helper with one call site (e.g. one that builds the segment) is read as part of its caller
+		}
+		for _, in := range core.Instrs(f) {
 			var seg ssa.Value
 			switch x := in.(type) {
 			case *ssa.Store:
@@ -1829,10 +1832,11 @@ func ruleWriterMarker(w *core.World, r *core.Report) {
 			if seg == nil {
 				continue
 			}
+			seg = core.Unwrap(seg)
 			n++
 			hasWriter := false
-			for _, in2 := range core.OwnInstrs(f) {
-				if c, ok := in2.(*ssa.Call); ok && core.ResolveCall(c).Name == "(*pkg/store.dataSetAof).SetWriter" && len(c.Call.Args) >= 1 && c.Call.Args[0] == seg {
+			for _, in2 := range core.Instrs(f) {
+				if c, ok := in2.(*ssa.Call); ok && core.ResolveCall(c).Name == "(*pkg/store.dataSetAof).SetWriter" && len(c.Call.Args) >= 1 && core.Unwrap(c.Call.Args[0]) == seg {
 					hasWriter = true
 				}
 			}
